@@ -351,6 +351,44 @@ theorem consumeInt_inv (b b' : List Byte) (v : Int) (h0 : (0 : Byte) ∈ b) (h :
       rw [← hc, ← isDigit_eq]; exact sp.hc0
     · rw [if_neg hle] at h; cases h
 
+/-- the repaired guard: on *every* input (NUL-terminated or not) every `int`
+operation of `consume_int` stays inside `[INT_MIN, INT_MAX]` -/
+theorem intLoop_no_ub (b : List Byte) : ∀ (val s : Int) (f : Flag), 0 ≤ val → val ≤ 2147483647 → (s = 1 ∨ s = -1) →
+    consumeIntLoop b val s f ≠ .ub := by
+  induction b with
+  | nil => intro val s f _ _ _; simp [consumeIntLoop]
+  | cons c b ih =>
+    intro val s f h0 h1 hs
+    simp only [consumeIntLoop]
+    split
+    · rw [inInt_pm s hs]; simp only [if_true]
+      exact ih val (-s) .s h0 h1 (by omega)
+    · split
+      · exact ih val s .s h0 h1 hs
+      · split
+        · exact ih val s f h0 h1 hs
+        · split
+          · rename_i _ _ _ hd
+            have hd9 : c.toNat - 48 ≤ 9 := by
+              simp only [isDigit, Bool.and_eq_true, decide_eq_true_eq] at hd; omega
+            have hg := guard_iff val (c.toNat - 48) h0 hd9
+            by_cases hov : val * 10 + ((c.toNat - 48 : Nat) : Int) > 2147483647
+            · rw [if_pos (hg.mpr hov)]; simp
+            · rw [if_neg (fun h => hov (hg.mp h))]
+              have e1 : inInt (val * 10) = true := by unfold inInt cIntMin cIntMax; simp; omega
+              have e2 : inInt (val * 10 + ((c.toNat - 48 : Nat) : Int)) = true := by
+                unfold inInt cIntMin cIntMax; simp; omega
+              simp only [e1, e2, Bool.and_self, if_true]
+              exact ih _ s .v (by omega) (by omega) hs
+          · split
+            · have : inInt (val * s) = true := by
+                unfold inInt cIntMin cIntMax; rcases hs with rfl | rfl <;> simp <;> omega
+              rw [this]; simp
+            · simp
+
+theorem consumeInt_no_ub (b : List Byte) : consumeInt b ≠ .ub :=
+  intLoop_no_ub b 0 1 .n (by omega) (by omega) (Or.inl rfl)
+
 /-! ### the consume functions against the token relation `Lex` -/
 
 theorem lex_has_nul {b : List Byte} {ts : List Tok} (h : Lex b ts) : (0 : Byte) ∈ b := by
